@@ -455,11 +455,11 @@ SANI = {
     "C15": "Miri shard in quick; Miri dev+release in thorough (`assume!` = unreachable_unchecked in release)",
 }
 TECH = {
-    "C04": "runtime invariant monitor over operation histories with result feedback (canonical form, Eq/Hash/Ord vs BigUint) + compile-probe monitor over generated programs (compiler diagnostics and program output as the event log)",
+    "C04": "runtime invariant monitor over operation histories with result feedback (canonical form, Eq/Hash/Ord vs BigUint) + compile-probe monitor over generated programs built in the dev and the release profile (compiler diagnostics and program output as the event log)",
     "C16": "runtime reference-model monitor: independent reference encoders + differential check against the codec crates' own primitive encodings, round-trip oracle",
     "C17": "runtime monitor of decoders under hostile inputs and injected reader faults: panic/abort observation (catch_unwind, supervised subprocess + journal), independent reference decoders, re-encode oracle",
     "C18": "runtime reference-model monitor with an exact rational oracle on IEEE-754 fields; exhaustive f32 sweep in thorough",
-    "C19": "compile-probe monitor: generated programs compiled against the working tree; rustc JSON diagnostics and program output are the observed events, judged against Python integers",
+    "C19": "compile-probe monitor: generated programs compiled against the working tree in the dev and the release profile (the proc-macro runs with and without overflow checks); rustc JSON diagnostics and program output are the observed events, judged against Python integers",
     "C20": "differential runtime monitor: facade vs inherent method, both under catch_unwind",
 }
 ENGINE = {"C19": "probes"}
